@@ -155,7 +155,7 @@ def check_state(h, v, acc, tier, only=None):
                     if S and e > s and any(ucells[s:e]):
                         acc.nontriv(hash((pre[2], tuple(S), s, e, top)))
     # every raw bound pair: must agree with the normalised call (canonical equality, else full check)
-    raw_menu = menu if tier != 'quick' else menu[:1]
+    raw_menu = menu[:4] if tier != 'quick' else menu[:1]     # (the whole menu on the raw grid made the thorough tier exceed its wall budget)
     for S in raw_menu:
         for top in (True, False):
             for i in bounds:
